@@ -184,6 +184,11 @@ def run(rep: common.Report):
     for ex in fs.ex:
         for u in ex.used:
             rep.functions.add(u.split(" ")[0])
+    # the property pipeline runs through the lines layer: the text reaches the parser again only if folding is undone exactly (C06.P4 /
+    # P5); C06's obligations are re-run on this tree as a lemma, a refutation there is reported by C06's own check
+    from props import C01 as _C01
+    for ob in _C01.import_lemmas(rep, rep.tier, plan=[("f", "C06", lambda o: True, "folding undone exactly, lines round trip")], pid=PID):
+        rep.add(ob)
     from props import C07_bnd
     b = Bounded("C07.bnd.real_round_trips", "Event.add -> to_ical -> from_ical (SUMMARY, CATEGORIES), vText / vCategory codecs",
                 C07_bnd.BOUND[rep.tier])
